@@ -19,8 +19,15 @@ object on the same data.  A failure that a fresh object does not show is reporte
 the whole (shrunk) history as replay.
 """
 import cmath
+import collections
+import copy
 import json
 import math
+import os
+import pickle
+import random as _random
+import shutil
+import tempfile
 import time
 import warnings
 
@@ -51,19 +58,103 @@ def translate(ctx):
 
 
 # ------------------------------------------------------------------ real code access
-def _particles(parts):
-    """parts: list of [E, charge, baryon, strangeness, x, y] -> sparkx Particle objects"""
+# Particle attributes the eccentricity must NOT depend on (for any weight quantity); a row of `parts` may carry,
+# as a 7th element, a dict of such attributes set to arbitrary values
+EXTRA_ATTRS = ["t", "z", "mass", "px", "py", "pz", "pdg", "ID", "ncoll", "form_time", "xsecfac", "proc_id_origin",
+               "proc_type_origin", "t_last_coll", "pdg_mother1", "pdg_mother2", "status", "weight"]
+
+
+class PList(list):
+    """a list subclass (accepted wherever 'a list' is)"""
+
+
+class PArr(np.ndarray):
+    """an ndarray subclass"""
+
+
+def _subclass(base, name):
+    """a trivial subclass of a sparkx class, importable from this module (so that it pickles)"""
+    cls = globals().get(name)
+    if cls is None or cls.__mro__[1] is not base:
+        cls = type(name, (base,), {"__module__": __name__, "__qualname__": name})
+        globals()[name] = cls
+    return cls
+
+
+def _cp(obj, mode):
+    """obj or one of its copies: copy.copy / copy.deepcopy / pickle round trip"""
+    if not mode:
+        return obj
+    if mode == "copy":
+        return copy.copy(obj)
+    if mode == "deepcopy":
+        return copy.deepcopy(obj)
+    return pickle.loads(pickle.dumps(obj))
+
+
+COPY_MODES = ["copy", "deepcopy", "pickle"]
+ENV_CHANGES = []  # filled by calls run under `_Env`: what the call left changed
+
+
+class _Env:
+    """an unusual but legitimate process environment for one call: cwd = a fresh empty temp dir, non-default numpy
+    print options, np.seterr(all='warn'), advanced global `random` / `np.random` states.  `changes()` names what
+    differs from the state at entry; everything is restored on exit."""
+
+    def __init__(self, seed):
+        self.seed = seed
+
+    def _snap(self):
+        return dict(cwd=os.getcwd(), files=sorted(os.listdir(".")), geterr=dict(np.geterr()),
+                    printoptions=repr(sorted(np.get_printoptions().items())), random=repr(_random.getstate()),
+                    np_random=repr(np.random.get_state()))
+
+    def __enter__(self):
+        self.saved = (os.getcwd(), np.geterr(), np.get_printoptions(), _random.getstate(), np.random.get_state())
+        self.tmp = tempfile.mkdtemp(prefix="c18env_")
+        os.chdir(self.tmp)
+        np.set_printoptions(precision=2, suppress=True, threshold=5, linewidth=40)
+        np.seterr(all="warn")
+        _random.seed(self.seed)
+        [_random.random() for _ in range(self.seed % 7)]
+        np.random.seed(self.seed % (2 ** 31))
+        np.random.rand(self.seed % 5)
+        self.entry = self._snap()
+        return self
+
+    def changes(self):
+        now = self._snap()
+        return [k for k in self.entry if self.entry[k] != now[k]]
+
+    def __exit__(self, *a):
+        cwd, err, po, rs, nrs = self.saved
+        os.chdir(cwd)
+        np.seterr(**err)
+        np.set_printoptions(**{k: v for k, v in po.items() if k != "override_repr"})
+        _random.setstate(rs)
+        np.random.set_state(nrs)
+        shutil.rmtree(self.tmp, ignore_errors=True)
+
+
+def _particles(parts, var=None):
+    """parts: list of [E, charge, baryon, strangeness, x, y (, {irrelevant attribute: value})] -> sparkx Particle
+    objects (of a Particle subclass / individually copied, when the variant says so)"""
     from sparkx.Particle import Particle
+    var = var or {}
+    cls = _subclass(Particle, "TaggedParticle") if var.get("psub") else Particle
     out = []
-    for E, ch, b, s, x, y in parts:
-        p = Particle()
+    for row in parts:
+        E, ch, b, s, x, y = row[:6]
+        p = cls()
+        for k, v in (row[6] if len(row) > 6 and row[6] else {}).items():
+            setattr(p, k, v)
         p.E = E
         p.charge = ch
         p.baryon_number = b
         p.strangeness = s
         p.x = x
         p.y = y
-        out.append(p)
+        out.append(_cp(p, (var.get("copy") or {}).get("particle")))
     return out
 
 
@@ -93,7 +184,9 @@ def _canon(fn):
 # applied left to right; every token keeps the shape and (up to the dtype's own rounding) the LOGICAL content
 # a[i, j, k] and only changes how it is stored.
 LAYOUT_TOKENS = ["F", "T", "swap01", "swap02", "swap12", "neg0", "neg1", "neg2", "negall", "slice", "f32", "int", "ro"]
-CONTAINERS = ["list", "ndarray", "ndarray-strided", "ndarray-reversed", "ndarray-ro"]
+CONTAINERS = ["list", "ndarray", "ndarray-strided", "ndarray-reversed", "ndarray-ro", "list-subclass", "ndarray-subclass"]
+# what the docs exclude ("list, numpy.ndarray or Lattice3D"; TypeError otherwise): sequences and one-shot iterators
+REJECTED_CONTAINERS = ["tuple", "generator", "iter", "map", "deque"]
 
 
 def _lay(a, layout):
@@ -175,6 +268,18 @@ def _container(pl, container):
     """the particle objects `pl` in the requested container (list / 1-d object ndarray in several representations)"""
     if not container or container == "list":
         return pl
+    if container == "list-subclass":
+        return PList(pl)
+    if container == "tuple":
+        return tuple(pl)
+    if container == "generator":
+        return (q for q in pl)
+    if container == "iter":
+        return iter(pl)
+    if container == "map":
+        return map(lambda q: q, pl)
+    if container == "deque":
+        return collections.deque(pl)
     n = len(pl)
     if container == "ndarray-strided":
         big = np.empty(2 * n + 1, dtype=object)
@@ -187,6 +292,8 @@ def _container(pl, container):
         arr[i] = p
     if container == "ndarray-ro":
         arr.setflags(write=False)
+    if container == "ndarray-subclass":
+        arr = arr.view(PArr)
     return arr
 
 
@@ -247,12 +354,20 @@ def _ecc(obj, lat, via, form, n, m, wq):
     return _invoke(obj, "eccentricity", form, harmonic_n=n, harmonic_m=m, weight_quantity=wq)
 
 
-def _canon_strict(fn, strict=False):
+def _canon_strict(fn, strict=False, env=None):
     """like `_canon`, also telling whether the call RAISED.  strict: warnings are errors (numpy's too), the way a
     caller running with -W error sees them, so a call that warns fails at that point of its work."""
     raised = True
     try:
-        if strict:
+        if env is not None:  # the call runs in the altered environment as it is (no errstate override)
+            with _Env(env) as e_:
+                try:
+                    with warnings.catch_warnings():
+                        warnings.simplefilter("error" if strict else "ignore")
+                        r = complex(fn())
+                finally:
+                    ENV_CHANGES.extend(e_.changes())
+        elif strict:
             with warnings.catch_warnings(), np.errstate(all="warn"):
                 warnings.simplefilter("error")
                 r = complex(fn())
@@ -272,15 +387,25 @@ def _canon_strict(fn, strict=False):
     return ("ok", r), raised
 
 
-def real_particles(parts, n, m, wq, via="eccentricity", container="list", form=None):
+def _made(data, form, var):
+    """an EventCharacteristics object on `data`; data and object possibly replaced by a copy first"""
+    cp = (var or {}).get("copy") or {}
+    return _cp(_construct(_cp(data, cp.get("data")), form), cp.get("ec"))
+
+
+def real_particles(parts, n, m, wq, via="eccentricity", container="list", form=None, var=None):
     form = form or "pos"
-    ec = _construct(_container(_particles(parts), container), form)
-    return _canon(lambda: _ecc(ec, False, "direct" if via != "eccentricity" else via, form, n, m, wq))
+
+    def run():
+        ec = _made(_container(_particles(parts, var), container), form, var)
+        return _ecc(ec, False, "direct" if via != "eccentricity" else via, form, n, m, wq)
+    return _canon_strict(run, env=(var or {}).get("env"))[0]
 
 
-def _lattice(ext, shape, grid, layout="C", axes="C"):
+def _lattice(ext, shape, grid, layout="C", axes="C", var=None):
     from sparkx.Lattice3D import Lattice3D
-    lat = Lattice3D(ext[0], ext[1], ext[2], ext[3], ext[4], ext[5], shape[0], shape[1], shape[2])
+    cls = _subclass(Lattice3D, "TaggedLattice") if (var or {}).get("lsub") else Lattice3D
+    lat = cls(ext[0], ext[1], ext[2], ext[3], ext[4], ext[5], shape[0], shape[1], shape[2])
     lat.grid_ = _lay(np.array(grid, dtype=float).reshape(shape), layout)
     if axes and axes != "C":
         lat.x_values_ = _lay(lat.x_values_, axes)
@@ -295,10 +420,13 @@ def logical_grid(lat):
     return [[[float(lat.grid_[i, j, l]) for l in range(sh[2])] for j in range(sh[1])] for i in range(sh[0])]
 
 
-def real_lattice(ext, shape, grid, n, m, layout="C", axes="C", form=None, via="eccentricity"):
+def real_lattice(ext, shape, grid, n, m, layout="C", axes="C", form=None, via="eccentricity", var=None, wq="energy"):
     form = form or "pos"
-    ec = _construct(_lattice(ext, shape, grid, layout, axes), form)
-    return _canon(lambda: _ecc(ec, True, via, form, n, m, "energy"))
+
+    def run():
+        ec = _made(_lattice(ext, shape, grid, layout, axes, var), form, var)
+        return _ecc(ec, True, via, form, n, m, wq)
+    return _canon_strict(run, env=(var or {}).get("env"))[0]
 
 
 # ------------------------------------------------------------------ independent reference (the property's formula)
@@ -378,6 +506,52 @@ def gen_parts(rng, lo=0, hi=10, positive=False):
             ch, b, s = abs(ch), abs(b), abs(s)
         parts.append([E, ch, b, s, x, y])
     return parts
+
+
+def gen_extras(rng):
+    """arbitrary values for some of the attributes the eccentricity must not read"""
+    ex = {}
+    for a in rng.sample(EXTRA_ATTRS, rng.randint(1, 6)):
+        if a == "weight":
+            ex[a] = rng.choice([0.0, 0.5, 2.0, 3.5, -1.0, 17.0, rng.uniform(0.1, 9.0)])
+        elif a == "pdg":
+            ex[a] = rng.choice([211, -211, 2212, 22, 3122, -321, 9999999])
+        elif a in ("pdg_mother1", "pdg_mother2"):
+            ex[a] = rng.choice([113, 2224, 0])
+        elif a in ("ID", "ncoll", "status", "proc_id_origin", "proc_type_origin"):
+            ex[a] = rng.choice([-1, 0, 1, 2, 7, 45, 1000])
+        else:
+            ex[a] = rng.choice([0.0, rng.uniform(-50.0, 50.0), rng.uniform(0.0, 5.0), 1e6])
+    return ex
+
+
+def with_extras(rng, parts, prob=0.5):
+    """give (some of) the particles irrelevant attributes; 'weight' is set on most of them when at all"""
+    if rng.random() >= prob:
+        return parts
+    out = []
+    for p in parts:
+        if rng.random() < 0.8:
+            ex = gen_extras(rng)
+            if rng.random() < 0.5:
+                ex["weight"] = rng.choice([0.0, 0.5, 2.0, 3.5, -1.0, 17.0, rng.uniform(0.1, 9.0)])
+            out.append(list(p[:6]) + [ex])
+        else:
+            out.append(list(p[:6]))
+    return out
+
+
+def gen_var(rng, lattice=False):
+    """the round-4 devices for one case: copies of the input / the object, subclasses, environment"""
+    var = {}
+    if rng.random() < 0.3:
+        who = rng.sample(["data", "ec"] + ([] if lattice else ["particle"]), rng.choice([1, 1, 2]))
+        var["copy"] = {w: rng.choice(COPY_MODES) for w in who}
+    if rng.random() < 0.15:
+        var["lsub" if lattice else "psub"] = True
+    if rng.random() < 0.2:
+        var["env"] = rng.randint(1, 10 ** 6)
+    return var
 
 
 def gen_neutral(rng):
@@ -477,8 +651,9 @@ P_ATTRS = ["x", "y", "E", "charge", "baryon_number", "strangeness"]
 def _build(spec):
     """spec -> the live data object handed to EventCharacteristics (held by reference there)"""
     if spec["kind"] == "lattice":
-        return _lattice(spec["extent"], spec["shape"], spec["grid"], spec.get("layout", "C"), spec.get("axes", "C"))
-    return _container(_particles(spec["particles"]), spec.get("container"))
+        return _lattice(spec["extent"], spec["shape"], spec["grid"], spec.get("layout", "C"), spec.get("axes", "C"),
+                        spec.get("var"))
+    return _container(_particles(spec["particles"], spec.get("var")), spec.get("container"))
 
 
 def _is_lattice(data):
@@ -677,6 +852,8 @@ def _bad_data(spec):
         return np.array([p[4] for p in spec["particles"]], dtype=float)
     if what == "nested":  # a list of events instead of one event
         return [_particles(spec["particles"])]
+    if what in REJECTED_CONTAINERS:  # sequences / one-shot iterators the docs do not list
+        return _container(_particles(spec["particles"]), what)
     pl = _particles(spec["particles"])  # a list with one element of the wrong type
     bad = {"str": "particle", "float": 1.5, "none": None, "row": list(spec["particles"][0])}[spec["element"]]
     pl[_pos(spec["pos"], len(pl))] = bad
@@ -735,8 +912,10 @@ def run_session(session, record=None, _nested=False):
     raised_steps = []  # steps whose call raised (on any object)
 
     def make(name, spec):
-        data = _build(spec)
-        objs[name] = dict(ec=_construct(data, session.get("cform", "pos")), data=data, since=[], failed=[])
+        var = {k: v for k, v in (spec.get("var") or {}).items() if k != "env"}
+        ec = _made(_build(spec), session.get("cform", "pos"), var)
+        # (a copied object / input holds its own data: everything below works on what the object holds)
+        objs[name] = dict(ec=ec, data=ec.event_data_, since=[], failed=[])
     make("main", session["init"])
     if session.get("other"):
         make("other", session["other"])
@@ -753,10 +932,15 @@ def run_session(session, record=None, _nested=False):
             continue
         if name == "set_event_data":
             bad = (op.get("data") or {}).get("kind") == "bad"
-            new = data if op.get("data") is None else (_bad_data(op["data"]) if bad else _build(op["data"]))
+            new = data if op.get("data") is None else (_bad_data(op["data"]) if bad else
+                                                       _cp(_build(op["data"]), ((op["data"].get("var") or {}).get("copy") or {}).get("data")))
             before = _observe(ec) if record is None else None
             try:
                 _invoke(ec, "set_event_data", form, event_data=new)
+                if bad and record is None:
+                    return (f"documented-rejection-missing:event_data:{op['data']['what']}",
+                            f"step {step}: set_event_data({op['data']['what']} data) was accepted; the documentation says it raises TypeError",
+                            dict(step=step))
                 o["data"] = new
                 o["since"].append(name)
             except Exception as e:
@@ -771,6 +955,11 @@ def run_session(session, record=None, _nested=False):
                             f"{ {k: (before.get(k), after.get(k)) for k in set(before) | set(after) if before.get(k) != after.get(k)} }",
                             dict(step=step, before=before, after=after))
             continue
+        if name == "copy_obj":  # carry on with a copy of the long-lived object
+            o["ec"] = _cp(ec, op["mode"])
+            o["data"] = o["ec"].event_data_
+            o["since"].append("copy_obj:" + op["mode"])
+            continue
         if name != "compute":
             if _apply(data, op):
                 o["since"].append(name)
@@ -781,8 +970,12 @@ def run_session(session, record=None, _nested=False):
         method = ("eccentricity" if via == "eccentricity" else
                   "eccentricity_from_lattice" if (lat if via == "direct" else not lat) else "eccentricity_from_particles")
         before = _observe(ec) if record is None else None
-        real, raised = _canon_strict(lambda: _ecc(ec, lat, via, form, n, m, wq), strict)
+        del ENV_CHANGES[:]
+        real, raised = _canon_strict(lambda: _ecc(ec, lat, via, form, n, m, wq), strict, env=op.get("env"))
         content = _content(data)
+        if ENV_CHANGES and record is None:
+            return ("environment:changed-by-call:" + "+".join(sorted(set(ENV_CHANGES))),
+                    f"step {step}: the call left the process environment changed: {sorted(set(ENV_CHANGES))}", dict(step=step))
         in_domain = valid_call(n, m, wq, lat, via) and content_ok(content, data)
         if record is not None:
             if in_domain and not raised:
@@ -799,6 +992,14 @@ def run_session(session, record=None, _nested=False):
         elif in_domain and (o["failed"] or (op.get("obj") == "other" and objs["main"]["failed"])):
             _stat("session/valid-call-after-failed-call" + ("/other-object" if op.get("obj") == "other" else ""))
         shown = f"{method}({n!r},{m!r},{wq!r}) [call form {form}{', warnings as errors' if strict else ''}]"
+        # documented rejections: harmonic order < 1, unknown weight quantity (particles) -> ValueError
+        if type(n) is int and n < 1 and via != "cross" and real != ("err", "value"):
+            return ("documented-rejection-missing:harmonic_n", f"step {step}: {shown} gives {real}; documented: ValueError",
+                    dict(step=step))
+        if (not lat and via != "cross" and (wq is None or isinstance(wq, str)) and wq not in WQS and content_ok(content, data)
+                and content[1] and valid_call(n, m, "energy", lat, via) and real != ("err", "value")):
+            return ("documented-rejection-missing:weight_quantity", f"step {step}: {shown} gives {real}; documented: ValueError",
+                    dict(step=step))
         if raised:
             after = _observe(ec)
             if after != before:
@@ -838,6 +1039,18 @@ def run_session(session, record=None, _nested=False):
                 key = "formula:lattice" + _stored(data.grid_) if lat else f"formula:particles:{wq}:{mk}"
                 key = form_key(lambda f: _canon_strict(lambda: _ecc(_construct(data), lat, via, f, n, m, wq), strict)[0],
                                ref, tol, form, method) or key
+                if not lat and not key.startswith("call-form"):
+                    # does the result depend on an attribute the eccentricity must not read?
+                    live = list(data)
+
+                    def with_attrs(attrs):
+                        rows = [row + [{a: float(getattr(q, a)) for a in attrs if getattr(q, a) == getattr(q, a)}]
+                                for row, q in zip(content[1], live)]
+                        return _canon_strict(lambda: _ecc(_construct(_particles(rows)), False, via, form, n, m, wq), strict)[0]
+                    if _agree(with_attrs([]), ("ok", ref), tol):
+                        need = [a for a in EXTRA_ATTRS if not _agree(with_attrs([a]), ("ok", ref), tol)]
+                        if need:
+                            key = f"irrelevant-attribute:{wq}:{'+'.join(need)}"
                 if raised_steps and not _nested and not key.startswith("call-form"):
                     # fresh objects are wrong too.  Is it because of the calls that failed earlier (state shared
                     # between objects)?  Run the same history without them.
@@ -858,13 +1071,14 @@ def run_session(session, record=None, _nested=False):
 def gen_spec(rng, kind=None):
     kind = kind or rng.choice(["particles", "lattice"])
     if kind == "particles":
-        return dict(kind="particles", particles=gen_parts(rng, 2, 7, positive=rng.random() < 0.7),
-                    container=rng.choice(CONTAINERS) if rng.random() < 0.35 else "list")
+        return dict(kind="particles", particles=with_extras(rng, gen_parts(rng, 2, 7, positive=rng.random() < 0.7), prob=0.4),
+                    container=rng.choice(CONTAINERS) if rng.random() < 0.35 else "list", var=gen_var(rng))
     ext, shape, grid = gen_lattice(rng, nonneg=rng.random() < 0.8)
     if rng.random() < 0.6:
         shape = [max(2, v) for v in shape]
         grid = [[[rng.uniform(0.0, 5.0) for _ in range(shape[2])] for _ in range(shape[1])] for _ in range(shape[0])]
-    return dict(kind="lattice", extent=ext, shape=shape, grid=grid, layout=gen_layout(rng), axes=gen_axes_layout(rng))
+    return dict(kind="lattice", extent=ext, shape=shape, grid=grid, layout=gen_layout(rng), axes=gen_axes_layout(rng),
+                var=gen_var(rng, lattice=True))
 
 
 def gen_compute(rng, obj="main"):
@@ -873,6 +1087,8 @@ def gen_compute(rng, obj="main"):
               form=rng.choice(FORMS))
     if rng.random() < 0.15:
         op["strict"] = True  # warnings as errors: harmless on a call that has no reason to warn
+    elif rng.random() < 0.12:
+        op["env"] = rng.randint(1, 10 ** 6)  # fresh cwd, numpy print options / seterr, advanced global RNG states
     if obj != "main":
         op["obj"] = obj
     return op
@@ -888,7 +1104,7 @@ def gen_bad_compute(rng):
     elif what == "m":
         op["m"] = rng.choice([0, -1, -2])
     elif what == "wq":
-        op["wq"] = rng.choice(["Energy", "pt", "", "mass", None])
+        op["wq"] = rng.choice(BAD_WQ)
     elif what == "n-type":
         op["n"] = rng.choice(["2", None, [2]])
     elif what == "m-type":
@@ -899,7 +1115,8 @@ def gen_bad_compute(rng):
 
 
 def gen_bad_data(rng):
-    what = rng.choice(["tuple", "none", "int", "dict", "str", "float-array", "nested", "element", "element", "element"])
+    what = rng.choice(["tuple", "none", "int", "dict", "str", "float-array", "nested", "element", "element", "element",
+                       "generator", "iter", "map", "deque"])
     spec = dict(kind="bad", what=what, particles=gen_parts(rng, 2, 5, positive=True))
     if what == "element":
         spec.update(element=rng.choice(["str", "float", "none", "row"]), pos=rng.choice(["first", "middle", "last"]),
@@ -958,12 +1175,16 @@ def gen_mutation(rng, kind):
         return dict(op=name, co=co)
     name = rng.choice(["p_set", "p_set", "p_set", "p_replace", "p_reverse", "p_append", "p_pop"])
     if name == "p_set":
+        if rng.random() < 0.3:  # an attribute the eccentricity must not read
+            ex = gen_extras(rng)
+            attr = rng.choice(sorted(ex))
+            return dict(op=name, idx=rng.randint(0, 9), attr=attr, value=ex[attr])
         attr = rng.choice(P_ATTRS)
         value = (rng.uniform(-5, 5) if attr in ("x", "y") else rng.uniform(0.1, 10.0) if attr == "E"
                  else float(rng.choice([1, 2, 3])))
         return dict(op=name, idx=rng.randint(0, 9), attr=attr, value=value)
     if name in ("p_replace", "p_append"):
-        return dict(op=name, idx=rng.randint(0, 9), part=gen_parts(rng, 1, 1, positive=True)[0])
+        return dict(op=name, idx=rng.randint(0, 9), part=with_extras(rng, gen_parts(rng, 1, 1, positive=True))[0])
     return dict(op=name, idx=rng.randint(0, 9))
 
 
@@ -987,6 +1208,8 @@ def gen_session(rng):
                 ops.append(gen_compute(rng, obj="other"))
         else:
             ops += [gen_mutation(rng, kind) for _ in range(rng.randint(1, 3))]
+        if rng.random() < 0.15:
+            ops.append(dict(op="copy_obj", mode=rng.choice(COPY_MODES)))
         if other and rng.random() < 0.2:
             ops.append(gen_compute(rng, obj="other"))
     ops.append(gen_compute(rng))
@@ -1052,6 +1275,18 @@ def shrink_session(session, key):
     return cur
 
 
+def _count_devices(ctx, var, parts):
+    for who, mode in ((var or {}).get("copy") or {}).items():
+        ctx.count(f"device/copy/{who}/{mode}")
+    for k in ("env", "psub", "lsub"):
+        if (var or {}).get(k):
+            ctx.count("device/" + {"env": "environment", "psub": "Particle-subclass", "lsub": "Lattice3D-subclass"}[k])
+    if parts and any(len(p) > 6 and p[6] for p in parts):
+        ctx.count("device/irrelevant-attributes-set")
+        if any(len(p) > 6 and p[6] and "weight" in p[6] for p in parts):
+            ctx.count("device/irrelevant-attributes-set/weight")
+
+
 # ------------------------------------------------------------------ correspondence (tie C)
 def correspond(ctx):
     rng = ctx.rng
@@ -1069,6 +1304,15 @@ def correspond(ctx):
                 "non-contiguous slice of a bigger array, float32, int64, read-only (and combinations); coordinate arrays as "
                 "reversed / strided / read-only views; particle containers list / object ndarray (plain, strided, reversed view, "
                 "read-only); model and formula are always fed the logical content read element by element (grid_[i,j,k]).  "
+                "Round-4 devices: particles carry arbitrary values of the attributes the eccentricity must not read (weight, status, "
+                "ID, ncoll, pdg, t, z, momenta, ...), for every weight quantity; inputs and EventCharacteristics objects are "
+                "replaced at random by their copy.copy / copy.deepcopy / pickle round trip before use (and mid-history); "
+                "list / ndarray / Particle / Lattice3D subclasses; calls in a fresh cwd with non-default numpy print options, "
+                "np.seterr(all='warn') and advanced global random / np.random states, which the call must leave as found; "
+                "lattice calls through eccentricity() with every weight_quantity (documented to have no effect there); "
+                "what the docs exclude must be rejected with the documented exception: tuples / deques / generators / iter / "
+                "map objects and non-Particle elements as event data (TypeError), harmonic_n < 1 and unknown weight names "
+                "incl. trailing blanks, CR/LF, other case, non-ASCII look-alikes (ValueError).  "
                 "Call forms: every public call is issued all-positional in the documented order / all keywords / mixed / with "
                 "defaults omitted (keyword or positional).  Error paths in sessions: calls rejected up front (n, m of wrong "
                 "value or type, unknown weight name, the other variant's method), data rejected by set_event_data / the "
@@ -1081,6 +1325,9 @@ def correspond(ctx):
     ctx.assumptions.append("C18: np.arctan2/np.cos/np.sin/float ** are compared with C libm atan2/cos/sin/pow at 1e-9 "
                            "(times the condition number sum|a|/|sum a|); theorems use exact real functions")
     ctx.assumptions.append("C18: particles with unset (NaN) attributes are outside the property and not generated")
+    ctx.assumptions.append("C18: the API takes no file names and no text besides weight_quantity, so the file/cwd/text devices reduce "
+                           "to: results independent of cwd / numpy settings / global RNG state, and strict matching of weight names; "
+                           "one-shot iterators and tuples are excluded by the docs (TypeError) and their rejection is asserted")
     ctx.assumptions.append("C18 tie T: harness/translate/ecc.py renders eccentricity_from_particles / eccentricity_from_lattice "
                            "(guards, weight chain, radial factor, trig, accumulators, final quotient) faithfully; the Lattice3D "
                            "accessors (grid_.shape, np.ndindex order, get_coordinates, get_value_by_index), the typed reading of the "
@@ -1095,16 +1342,16 @@ def correspond(ctx):
             if neutral:
                 parts = gen_neutral(rng)
             else:
-                parts = gen_parts(rng, 0 if sub < 0.2 else 1, 10)
+                parts = with_extras(rng, gen_parts(rng, 0 if sub < 0.2 else 1, 10), prob=0.4)
             n, m = gen_nm(rng, bad=0.08)
-            wq = rng.choice(WQS) if rng.random() > 0.04 else rng.choice(["Energy", "pt", "", "mass"])
+            wq = rng.choice(WQS) if rng.random() > 0.04 else rng.choice([w for w in BAD_WQ if w is not None])
             if neutral:
                 wq = rng.choice(["charge", "baryon", "strangeness"])
             plist = _particles(parts)
             seen = _seen(plist)
             container = rng.choice(CONTAINERS) if rng.random() < 0.3 else "list"
             lines.append(line_particles(n, m, wq, seen))
-            meta.append(("p", n, m, wq, (parts, container, rng.choice(FORMS), rng.choice(["eccentricity", "direct"])), seen, neutral, None))
+            meta.append(("p", n, m, wq, (parts, container, rng.choice(FORMS), rng.choice(["eccentricity", "direct"]), gen_var(rng)), seen, neutral, None))
         else:
             ext, shape, grid = gen_lattice(rng)
             if rng.random() < 0.05:
@@ -1116,7 +1363,8 @@ def correspond(ctx):
             ys = [float(v) for v in lat.y_values_]
             g = logical_grid(lat)  # what grid_[i, j, k] holds in this representation
             lines.append(line_lattice(n, m, xs, ys, shape[2], g))
-            meta.append(("l", n, m, None, (ext, shape, grid, layout, axl, rng.choice(FORMS), rng.choice(["eccentricity", "direct"])), (xs, ys, g), False, None))
+            meta.append(("l", n, m, None, (ext, shape, grid, layout, axl, rng.choice(FORMS), rng.choice(["eccentricity", "direct"]),
+                                          gen_var(rng, lattice=True), rng.choice(WQS + ["energy"] * 3)), (xs, ys, g), False, None))
     # sessions: every call of a long-lived object is compared with the model on the content held at that moment
     for si in range(ctx.n(60, 1500)):
         session = gen_session(rng)
@@ -1126,11 +1374,11 @@ def correspond(ctx):
             where = dict(session=session, step=step)
             if content[0] == "p":
                 lines.append(line_particles(n, m, wq, content[1]))
-                meta.append(("p", n, m, wq, (content[1], "list", None, None), content[1], False, (real, where)))
+                meta.append(("p", n, m, wq, (content[1], "list", None, None, None), content[1], False, (real, where)))
             else:
                 _, xs, ys, nz, g = content
                 lines.append(line_lattice(n, m, xs, ys, nz, g))
-                meta.append(("l", n, m, None, (None, [len(xs), len(ys), nz], g, None, None, None, None), (xs, ys, g), False, (real, where)))
+                meta.append(("l", n, m, None, (None, [len(xs), len(ys), nz], g, None, None, None, None, None, None), (xs, ys, g), False, (real, where)))
     # every case goes to the hand model (`p` / `l`) and to the functions generated from the source (`gp` / `gl`)
     outs = common.run_driver("C18", lines + ["g" + l for l in lines])
     gouts = outs[len(lines):]
@@ -1139,8 +1387,9 @@ def correspond(ctx):
         model = parse_model(out)
         gen = parse_model(gout)
         if kind == "p":
-            inp, container, form, via = inp
-            real = pre[0] if pre else real_particles(inp, n, m, wq, via=via, container=container, form=form)
+            inp, container, form, via, var = inp
+            real = pre[0] if pre else real_particles(inp, n, m, wq, via=via, container=container, form=form, var=var)
+            _count_devices(ctx, var, inp)
             if form:
                 ctx.count("call-form/" + form)
             k = radial_power(max(n, 1), m if (m is None or m >= 1) else 1)
@@ -1155,8 +1404,9 @@ def correspond(ctx):
                 ctx.count("representation/particles/" + container)
             tag = f"p/{wq if wq in WQS else 'unknown-wq'}/n={n if n >= 1 else '<1'}/m={'default' if m is None else ('given' if m >= 1 else '<1')}/{real[0]}{':' + real[1] if real[0] == 'err' else ''}"
         else:
-            ext, shape, grid, layout, axl, form, via = inp
-            real = pre[0] if pre else real_lattice(ext, shape, grid, n, m, layout, axl, form=form, via=via)
+            ext, shape, grid, layout, axl, form, via, var, lwq = inp
+            real = pre[0] if pre else real_lattice(ext, shape, grid, n, m, layout, axl, form=form, via=via, var=var, wq=lwq or "energy")
+            _count_devices(ctx, var, None)
             if form:
                 ctx.count("call-form/" + form)
             xs, ys, g = seen
@@ -1206,7 +1456,35 @@ def correspond(ctx):
 # ------------------------------------------------------------------ the property on the real code
 def _rot(parts, a):
     c, s = math.cos(a), math.sin(a)
-    return [[p[0], p[1], p[2], p[3], p[4] * c - p[5] * s, p[4] * s + p[5] * c] for p in parts]
+    return [[p[0], p[1], p[2], p[3], p[4] * c - p[5] * s, p[4] * s + p[5] * c] + p[6:] for p in parts]
+
+
+def diagnose(run, ref, tol, form, method, var, parts=None, wq=None, lattice_wq=None):
+    """A call misses the formula.  Which ingredient of the case matters?  `run(**overrides)` repeats the call with
+    form / var / parts / wq replaced.  Returns a specific key or None (then the plain formula key is used)."""
+    right = lambda r: _agree(r, ("ok", ref), tol)
+    fk = form_key(lambda f: run(form=f), ref, tol, form, method)
+    if fk:
+        return fk
+    if parts is not None and any(len(p) > 6 and p[6] for p in parts):
+        if right(run(parts=[p[:6] for p in parts])):  # right without the attributes it must not read
+            used = sorted({a for p in parts if len(p) > 6 and p[6] for a in p[6]})
+            need = [a for a in used
+                    if not right(run(parts=[p[:6] + [{k: v for k, v in (p[6] if len(p) > 6 and p[6] else {}).items() if k == a}]
+                                            for p in parts]))]
+            return f"irrelevant-attribute:{wq}:{'+'.join(need) or '+'.join(used)}"
+    for dev in ("copy", "env", "psub", "lsub"):
+        if var.get(dev) and right(run(var={k: v for k, v in var.items() if k != dev})):
+            if dev == "copy":
+                for who, mode in sorted(var["copy"].items()):
+                    if right(run(var=dict(var, copy={w: m_ for w, m_ in var["copy"].items() if w != who}))):
+                        return f"copy:{who}:{mode}"
+                return "copy:" + "+".join(f"{w}:{m_}" for w, m_ in sorted(var["copy"].items()))
+            return {"env": "environment:result-depends-on-environment", "psub": "subclass:Particle",
+                    "lsub": "subclass:Lattice3D"}[dev]
+    if lattice_wq not in (None, "energy") and right(run(wq="energy")):
+        return f"lattice:weight_quantity={lattice_wq}"
+    return None
 
 
 def check_particles(case):
@@ -1221,52 +1499,60 @@ def check_particles(case):
     tol = 1e-9 * max(1.0, cond)
     mk = "m-given" if m is not None else ("m-default-n1" if n == 1 else "m-default")
     form = case.get("form", "pos")
+    var = case.get("var") or {}
+    del ENV_CHANGES[:]
     container = case.get("container", "list")
     ck = "" if container == "list" else ":container=" + container
-    base = real_particles(parts, n, m, wq, container=container, form=form)
+    def run(**ov):
+        return real_particles(ov.get("parts", parts), n, m, wq, container=container, form=ov.get("form", form), var=ov.get("var", var))
+    base = run()
+    if ENV_CHANGES:
+        return ("environment:changed-by-call:" + "+".join(sorted(set(ENV_CHANGES))),
+                f"eccentricity({n},{m},{wq!r}) left the process environment changed: {sorted(set(ENV_CHANGES))}",
+                dict(relation="environment", observed=sorted(set(ENV_CHANGES))))
     if base[0] != "ok":
-        fk = form_key(lambda f: real_particles(parts, n, m, wq, container=container, form=f), ref, tol, form, "eccentricity")
+        fk = diagnose(run, ref, tol, form, "eccentricity", var, parts=parts, wq=wq)
         return (fk or f"formula:particles:{wq}:{mk}{ck}", f"eccentricity({n},{m},{wq!r}) [call form {form}] gives {base} where the formula gives {ref!r}",
                 dict(relation="formula", expected=str(ref), observed=str(base)))
     e = base[1]
     if not cclose(e, ref, tol):
-        fk = form_key(lambda f: real_particles(parts, n, m, wq, container=container, form=f), ref, tol, form, "eccentricity")
+        fk = diagnose(run, ref, tol, form, "eccentricity", var, parts=parts, wq=wq)
         return (fk or f"formula:particles:{wq}:{mk}{ck}",
                 f"eccentricity({n},{m},{wq!r}) [call form {form}] = {e!r} but -sum(w r^{k} e^(i{n}phi))/sum(w r^{k}) = {ref!r}",
                 dict(relation="formula", expected=str(ref), observed=str(e)))
-    d = real_particles(parts, n, m, wq, via="from_particles", form=form)
+    d = real_particles(parts, n, m, wq, via="from_particles", form=form, var=var)
     if d[0] != "ok" or d[1] != e:
         return ("dispatch:particles", f"eccentricity() = {e!r} differs from eccentricity_from_particles() = {d}",
                 dict(relation="dispatch", expected=str(e), observed=str(d)))
     if m is None:
-        d = real_particles(parts, n, k, wq, form=form)
+        d = real_particles(parts, n, k, wq, form=form, var=var)
         if d[0] != "ok" or not cclose(d[1], e, tol):
             return (f"m-default:{'n1' if n == 1 else 'n>1'}", f"eccentricity({n}) = {e!r} but eccentricity({n}, m={k}) = {d}",
                     dict(relation="m-default", expected=str(e), observed=str(d)))
     if all(weight_of(wq, p) >= 0 for p in parts) and abs(e) > 1 + 1e-9:
         return (f"bound:{wq}", f"|eccentricity| = {abs(e)!r} > 1 with non-negative weights",
                 dict(relation="bound", expected="<= 1", observed=abs(e)))
-    r = real_particles(_rot(parts, alpha), n, m, wq, form=form)
+    r = real_particles(_rot(parts, alpha), n, m, wq, form=form, var=var)
     exp = cmath.exp(1j * n * alpha) * e
     if r[0] != "ok" or not cclose(r[1], exp, tol):
         return ("rotation", f"rotating positions by {alpha!r}: got {r}, expected e^(i n alpha) eps = {exp!r}",
                 dict(relation="rotation", expected=str(exp), observed=str(r)))
-    r = real_particles([[p[0], p[1], p[2], p[3], -p[4], p[5]] for p in parts], n, m, wq, form=form)
+    r = real_particles([[p[0], p[1], p[2], p[3], -p[4], p[5]] + p[6:] for p in parts], n, m, wq, form=form, var=var)
     exp = (-1) ** n * e.conjugate()
     if r[0] != "ok" or not cclose(r[1], exp, tol):
         return ("reflection", f"x -> -x: got {r}, expected (-1)^n conj(eps) = {exp!r}",
                 dict(relation="reflection", expected=str(exp), observed=str(r)))
-    r = real_particles([[p[0], p[1], p[2], p[3], s * p[4], s * p[5]] for p in parts], n, m, wq, form=form)
+    r = real_particles([[p[0], p[1], p[2], p[3], s * p[4], s * p[5]] + p[6:] for p in parts], n, m, wq, form=form, var=var)
     if r[0] != "ok" or not cclose(r[1], e, tol):
         return ("scale-positions", f"positions scaled by {s!r}: got {r}, expected {e!r}",
                 dict(relation="scale-positions", expected=str(e), observed=str(r)))
     if wq != "number":
         ci = c if wq == "energy" else float(int(c) or 2)  # charge-like getters truncate to int
-        r = real_particles([[ci * p[0], ci * p[1], ci * p[2], ci * p[3], p[4], p[5]] for p in parts], n, m, wq, form=form)
+        r = real_particles([[ci * p[0], ci * p[1], ci * p[2], ci * p[3], p[4], p[5]] + p[6:] for p in parts], n, m, wq, form=form, var=var)
         if r[0] != "ok" or not cclose(r[1], e, tol):
             return (f"scale-weights:{wq}", f"weights scaled by {ci!r}: got {r}, expected {e!r}",
                     dict(relation="scale-weights", expected=str(e), observed=str(r)))
-    r = real_particles([parts[i] for i in perm], n, m, wq, form=form)
+    r = real_particles([parts[i] for i in perm], n, m, wq, form=form, var=var)
     if r[0] != "ok" or not cclose(r[1], e, tol):
         return ("permutation", f"particles reordered by {perm}: got {r}, expected {e!r}",
                 dict(relation="permutation", expected=str(e), observed=str(r)))
@@ -1277,6 +1563,9 @@ def check_lattice(case):
     ext, shape, grid, n, m = case["extent"], case["shape"], case["grid"], case["n"], case["m"]
     k = radial_power(n, m)
     form = case.get("form", "pos")
+    var = case.get("var") or {}
+    lwq = case.get("wq", "energy")  # a particle option handed to the lattice variant: documented to be without effect
+    del ENV_CHANGES[:]
     layout, axl = case.get("layout", "C"), case.get("axes", "C")
     lat = _lattice(ext, shape, grid, layout, axl)
     xs, ys = [float(v) for v in lat.x_values_], [float(v) for v in lat.y_values_]
@@ -1288,14 +1577,21 @@ def check_lattice(case):
     if ref is None or cond > 1e4:
         return None
     tol = 1e-9 * max(1.0, cond)
-    base = real_lattice(ext, shape, grid, n, m, layout, axl, form=form)
+    def run(**ov):
+        return real_lattice(ext, shape, grid, n, m, layout, axl, form=ov.get("form", form), var=ov.get("var", var),
+                            wq=ov.get("wq", lwq))
+    base = run()
+    if ENV_CHANGES:
+        return ("environment:changed-by-call:" + "+".join(sorted(set(ENV_CHANGES))),
+                f"lattice eccentricity({n},{m}) left the process environment changed: {sorted(set(ENV_CHANGES))}",
+                dict(relation="environment", observed=sorted(set(ENV_CHANGES))))
     if base[0] != "ok" or not cclose(base[1], ref, tol):
-        fk = form_key(lambda f: real_lattice(ext, shape, grid, n, m, layout, axl, form=f), ref, tol, form, "eccentricity")
+        fk = diagnose(run, ref, tol, form, "eccentricity", var, lattice_wq=lwq)
         return (fk or "formula:lattice" + lk, f"lattice eccentricity({n},{m}) [grid_ layout {layout}, axes {axl}] = {base} but the formula over the nodes weighted by density gives {ref!r}",
                 dict(relation="lattice-formula", expected=str(ref), observed=str(base)))
     e = base[1]
     # the same nodes as particles (energy = density)
-    r = real_particles([[w, 0.0, 0.0, 0.0, x, y] for w, x, y in pts], n, m, "energy", form=form)
+    r = real_particles([[w, 0.0, 0.0, 0.0, x, y] for w, x, y in pts], n, m, "energy", form=form, var=var)
     if r[0] != "ok" or not cclose(r[1], e, tol):
         return ("lattice-vs-particles", f"lattice gives {e!r}, the particle function on its nodes gives {r}",
                 dict(relation="lattice-vs-particles", expected=str(e), observed=str(r)))
@@ -1305,42 +1601,84 @@ def check_lattice(case):
     # reflected lattice: x axis [-x1, -x0], planes in reverse order
     # (np.linspace with a single point yields the lower limit only)
     mext = ([-ext[1], -ext[0]] if shape[0] > 1 else [-ext[0], -ext[0] + 1.0]) + ext[2:]
-    r = real_lattice(mext, shape, grid[::-1], n, m, dl, axl, form=form)
+    r = real_lattice(mext, shape, grid[::-1], n, m, dl, axl, form=form, var=var, wq=lwq)
     exp = (-1) ** n * e.conjugate()
     if r[0] != "ok" or not cclose(r[1], exp, tol):
         return ("reflection:lattice" + lk, f"lattice mirrored in x: got {r}, expected {exp!r}",
                 dict(relation="reflection", expected=str(exp), observed=str(r)))
     c = case["wscale"]
-    r = real_lattice(ext, shape, [[[c * v for v in row] for row in plane] for plane in grid], n, m, dl, axl, form=form)
+    r = real_lattice(ext, shape, [[[c * v for v in row] for row in plane] for plane in grid], n, m, dl, axl, form=form, var=var, wq=lwq)
     if r[0] != "ok" or not cclose(r[1], e, tol):
         return ("scale-weights:lattice" + lk, f"densities scaled by {c!r}: got {r}, expected {e!r}",
                 dict(relation="scale-weights", expected=str(e), observed=str(r)))
     s = case["scale"]
-    r = real_lattice([s * v for v in ext], shape, grid, n, m, dl, axl, form=form)
+    r = real_lattice([s * v for v in ext], shape, grid, n, m, dl, axl, form=form, var=var, wq=lwq)
     if r[0] != "ok" or not cclose(r[1], e, tol):
         return ("scale-positions:lattice" + lk, f"lattice extent scaled by {s!r}: got {r}, expected {e!r}",
                 dict(relation="scale-positions", expected=str(e), observed=str(r)))
     return None
 
 
+BAD_WQ = ["Energy", "pt", "", "mass", None, "energy ", " energy", "number\n", "energy\r\n", "\u00e9nergie", "ENERGY",
+          "baryon_number", "strange\u00adness"]
+
+
+def check_rejection(case):
+    """inputs the docs exclude: the documented exception must be raised (never a silent default / a number)"""
+    parts, what = case["particles"], case["what"]
+    form = case.get("form", "pos")
+    if what == "harmonic_n":
+        r, doc = real_particles(parts, case["n"], None, "energy", form=form), "value"
+        shown = f"eccentricity({case['n']})"
+    elif what == "weight_quantity":
+        r, doc = real_particles(parts, 2, None, case["wq"], form=form), "value"
+        shown = f"eccentricity(2, weight_quantity={case['wq']!r})"
+    else:
+        try:
+            data = _bad_data(case["data"])
+        except Exception as e:
+            return None
+        r, doc = _canon(lambda: _ecc(_construct(data, form), False, "eccentricity", form, 2, None, "number")), "other:TypeError"
+        shown = f"EventCharacteristics({case['data'].get('what')} data)"
+        what = "event_data:" + case["data"]["what"] + (":" + case["data"]["element"] if case["data"]["what"] == "element" else "")
+    if r != ("err", doc):
+        return (f"documented-rejection-missing:{what}",
+                f"{shown} gives {r}; the documentation says it raises {'ValueError' if doc == 'value' else 'TypeError'}",
+                dict(relation="documented-rejection", expected=doc, observed=str(r)))
+    return None
+
+
 def check_case(case):
     if case["kind"] == "session":
         return run_session(case)
+    if case["kind"] == "reject":
+        return check_rejection(case)
     return check_particles(case) if case["kind"] == "particles" else check_lattice(case)
 
 
 def gen_case(rng):
     if rng.random() < 0.2:
         return gen_session(rng)
+    if rng.random() < 0.06:
+        what = rng.choice(["harmonic_n", "weight_quantity", "event_data", "event_data"])
+        c = dict(kind="reject", what=what, particles=gen_parts(rng, 2, 5, positive=True), form=rng.choice(FORMS))
+        if what == "harmonic_n":
+            c["n"] = rng.choice([0, -1, -4])
+        elif what == "weight_quantity":
+            c["wq"] = rng.choice(BAD_WQ)
+        else:
+            c["data"] = gen_bad_data(rng)
+        return c
     if rng.random() < 0.75:
         positive = rng.random() < 0.5
-        parts = gen_parts(rng, 2, 10, positive=positive)
+        parts = with_extras(rng, gen_parts(rng, 2, 10, positive=positive))
         n, m = gen_nm(rng)
         wq = rng.choice(WQS)
         perm = list(range(len(parts)))
         rng.shuffle(perm)
         return dict(kind="particles", particles=parts, n=n, m=m, wq=wq,
                     container=rng.choice(CONTAINERS) if rng.random() < 0.3 else "list", form=rng.choice(FORMS),
+                    var=gen_var(rng),
                     alpha=rng.choice([rng.uniform(-math.pi, math.pi), math.pi / 2, math.pi, -math.pi / 3, 2.0 * math.pi / 5]),
                     scale=rng.choice([0.5, 2.0, 4.0, rng.uniform(0.1, 10.0)]),
                     wscale=rng.choice([2.0, 3.0, 0.5, rng.uniform(0.2, 5.0), -2.0]), perm=perm)
@@ -1348,16 +1686,23 @@ def gen_case(rng):
     n, m = gen_nm(rng)
     return dict(kind="lattice", extent=ext, shape=shape, grid=grid, n=n, m=m,
                 layout=gen_layout(rng), axes=gen_axes_layout(rng), form=rng.choice(FORMS),
+                var=gen_var(rng, lattice=True), wq=rng.choice(WQS + ["energy"] * 3),
                 scale=rng.choice([0.5, 2.0, rng.uniform(0.1, 10.0)]), wscale=rng.choice([2.0, 0.5, rng.uniform(0.2, 5.0)]))
 
 
 def shrink(case, key):
     if case["kind"] == "session":
         return shrink_session(case, key)
+    if case["kind"] == "reject":
+        return case
     if case["kind"] != "particles":
         # which part of the representation is needed?  (the key names the representation, so compare its stem)
         stem = key.split(":layout=")[0]
         cur = dict(case)
+        for trial in ([dict(cur, var={})] if cur.get("var") else []) + ([dict(cur, wq="energy")] if cur.get("wq", "energy") != "energy" else []):
+            r = check_case(trial)
+            if r and r[0].split(":layout=")[0] == stem:
+                cur = trial
         for field in ("axes", "layout"):
             cands = ["C"] + [t for t in cur.get(field, "C").split("+") if t != "C"]
             for cand in cands:
@@ -1382,6 +1727,11 @@ def shrink(case, key):
                 cur = cand
                 changed = True
                 break
+    for trial in ([dict(cur, var={})] if cur.get("var") else []) + \
+            ([dict(cur, particles=[p[:6] for p in cur["particles"]])] if any(len(p) > 6 for p in cur["particles"]) else []):
+        r = check_case(trial)
+        if r and r[0] == key:
+            cur = trial
     if cur.get("container", "list") != "list":
         trial = dict(cur, container="list")
         r = check_case(trial)
